@@ -272,14 +272,18 @@ class C12(Base):
                    "FluentProofs/NumRules.lean"]
     RULE = ("case = bundle locale x value (number literal in the FTL source with sign / leading zeros / 0-18 fraction "
             "digits, argument of each of the 14 Rust number types, numeric string through try_number, "
-            "FluentNumber::new, plain string) x NUMBER call (none / random subset of the 10 option names with valid, "
-            "invalid and wrong-kind values) x select with plural keywords in random order, exact numeric keys (same "
-            "value written with other fraction digits, neighbours), other identifiers and one default. Locales en pl "
-            "ru ar fr cs lt ja de uk sl cy ro sv, en-US, pl-PL, unknown (xx, tlh). thorough adds exhaustive integers "
-            "0-200 and all one/two-fraction-digit values over 0-20 per locale x cardinal/ordinal, and every integer "
-            "0-200 with .0/.00/.5/.10. Non-trivial = in the exact-decimal domain, selector is a number and a variant "
-            "was chosen by a key (plural keyword or exact number), or a NUMBER option changed the printed text; "
-            "distinct = distinct case line.")
+            "FluentNumber::new, plain string) x NUMBER call (none / no options / random subset of the 10 option names "
+            "plus unknown names, with valid, invalid and wrong-kind values; minimumFractionDigits 0..18, 19, 20, 25, "
+            "100, 101, 10^6, u64::MAX, 10^30, negative, fractional) x select with plural keywords in random order, exact "
+            "numeric keys (the value written with other fraction digits / leading zero, neighbours), other identifiers "
+            "and one default at a random position. Locales en pl ru ar fr cs lt ja de uk sl cy ro sv, en-US, pl-PL, "
+            "fr-CA, ar-EG, unknown (xx, tlh). A fixed family covers the property's examples per locale; 5% of the "
+            "cases use values outside the exact-decimal domain (NaN, inf, 1e300, -0, >15 digits, 25+ fraction digits). "
+            "thorough adds, per locale (16) x cardinal/ordinal: every integer 0-200 as i32 argument, as literal with "
+            ".0/.00/.5/.10, and with minimumFractionDigits 1, and every one- and two-fraction-digit literal over "
+            "integer parts 0-20. Non-trivial = value in the exact-decimal domain, selector is a number, and either a "
+            "variant other than the default was chosen by a key or NUMBER changed the printed text or fraction digits "
+            "are visible; distinct = distinct case line.")
     EXPLANATION = ("Theorems (Props/C12.lean): literal_fraction_digits, number_options_override, operands_match_display, "
                    "plural_match_iff (+ variant order), CLDR sanity tests by decide. Tie: printed text of { $n } and "
                    "{ NUMBER($n, ...) }, chosen variant, FluentNumber after merge and PluralOperands::from(&n), "
@@ -716,8 +720,6 @@ class C12(Base):
                 return False
             printed = text_of(o["q"])[0] if c.named is not None else text_of(o["p"])[0]
             printed = printed.rstrip(".")
-            if typ == "ordinal" and Decimal(printed) == int(Decimal(printed)) and lang != "en":
-                pass
             chosen = int(text_of(o["s"])[0])
             good = category(lang, typ, printed)
             buggy = category(lang, typ, printed, buggy=True)
@@ -767,11 +769,11 @@ class C12(Base):
                 return False
             o = parse_obs(impl_obs)
             chosen = int(text_of(o["s"])[0])
-            default = [i for i, v in enumerate(c.variants) if v[2]][0]
-            if chosen != default or (len(c.variants) > 1 and c.variants[default][1] in KEYWORDS and chosen == default and
-                                     c.variants[default][1] != "other"):
+            if not c.variants[chosen][2]:
                 return True
-            return c.named is not None and o["q"] != o["p"]
+            if c.named is not None and o["q"] != o["p"]:
+                return True
+            return "." in text_of(o["p"])[0]
         except Exception:
             return False
 
